@@ -16,6 +16,7 @@ import (
 	"encoding/json"
 	"flag"
 	"fmt"
+	"math/big"
 	"os"
 	"os/exec"
 	"path/filepath"
@@ -83,11 +84,26 @@ type resultObs struct {
 	ID, Group, Name, Descr int
 	Submit                 int64
 	Status                 int64
+	Start, End             string // exact nanoseconds since the Unix epoch (decimal; the zero time is -62135596800000000000)
+}
+
+// nanosOf is the instant of t in nanoseconds since the Unix epoch, exactly (Time.UnixNano wraps outside 1678..2262).
+func nanosOf(t time.Time) string {
+	n := new(big.Int).Mul(big.NewInt(t.Unix()), big.NewInt(1000000000))
+	n.Add(n, big.NewInt(int64(t.Nanosecond())))
+	return n.String()
+}
+
+func bigZ(s string) string {
+	if s == "" {
+		s = "0"
+	}
+	return "(" + s + ")%Z"
 }
 
 func (r resultObs) term() string {
 	return core.App("Build_result", core.N(uint64(r.ID)), core.N(uint64(r.Group)), core.N(uint64(r.Name)), core.N(uint64(r.Descr)),
-		core.Z(r.Submit), core.N(statusN(r.Status)))
+		core.Z(r.Submit), core.N(statusN(r.Status)), bigZ(r.Start), bigZ(r.End))
 }
 
 type rowObs struct {
@@ -97,7 +113,7 @@ type rowObs struct {
 
 func (r rowObs) term() string {
 	return core.App("Build_row", core.N(uint64(r.ID)), core.N(uint64(r.Group)), core.N(uint64(r.Name)), core.N(uint64(r.Descr)),
-		core.Z(r.Submit), core.N(statusN(r.Status)), core.N(uint64(r.Swarm)))
+		core.Z(r.Submit), core.N(statusN(r.Status)), bigZ(r.Start), bigZ(r.End), core.N(uint64(r.Swarm)))
 }
 
 type streamObs struct {
@@ -203,6 +219,19 @@ type planSpec struct {
 	Descr  int   `json:"descr"`
 	Submit int64 `json:"submit"` // Unix seconds; zeroSubmit = the zero time.Time
 	Status int64 `json:"status"`
+	Start  int64 `json:"start"` // State.Start: Unix seconds (odd seconds carry 500 ms); zeroSubmit = the zero time.Time
+	End    int64 `json:"end"`
+}
+
+// stateTime turns the generator's second count into the time.Time written as State.Start / State.End.
+func stateTime(sec int64) time.Time {
+	if sec == zeroSubmit {
+		return time.Time{}
+	}
+	if sec%2 != 0 {
+		return time.Unix(sec, 500000000).UTC()
+	}
+	return time.Unix(sec, 0).UTC()
 }
 
 const zeroSubmit = -62135596800
@@ -215,7 +244,7 @@ func timeOf(sec int64) time.Time {
 }
 
 func (p planSpec) rowTerm() string {
-	return rowObs{resultObs{p.Ix, p.Group, p.Name, p.Descr, p.Submit, p.Status}, 0}.term()
+	return rowObs{resultObs{p.Ix, p.Group, p.Name, p.Descr, p.Submit, p.Status, nanosOf(stateTime(p.Start)), nanosOf(stateTime(p.End))}, 0}.term()
 }
 
 // build makes a small complete plan (one block, one sequence, one action, sometimes a check group)
@@ -227,7 +256,7 @@ func build(r *core.Rand, uu []uuid.UUID, ps planSpec, withChecks bool) *workflow
 	s := &workflow.Sequence{ID: id(), Name: "s", Descr: "d", Actions: []*workflow.Action{a}, State: st()}
 	b := &workflow.Block{ID: id(), Name: "b", Descr: "d", Sequences: []*workflow.Sequence{s}, State: st(), Concurrency: 1}
 	p := &workflow.Plan{ID: uu[ps.Ix], GroupID: uu[ps.Group], Name: names[ps.Name], Descr: names[ps.Descr],
-		Blocks: []*workflow.Block{b}, State: &workflow.State{Status: workflow.Status(ps.Status)}, SubmitTime: timeOf(ps.Submit)}
+		Blocks: []*workflow.Block{b}, State: &workflow.State{Status: workflow.Status(ps.Status), Start: stateTime(ps.Start), End: stateTime(ps.End)}, SubmitTime: timeOf(ps.Submit)}
 	if ps.Group == 0 {
 		p.GroupID = uuid.Nil
 	}
@@ -324,9 +353,11 @@ func observeStream(a *abs, h *hangs, kind string, f func(ctx context.Context) (c
 }
 
 func resultOf(a *abs, r storage.ListResult) resultObs {
-	o := resultObs{ID: a.id(r.ID), Group: a.id(r.GroupID), Name: nameIx(r.Name), Descr: nameIx(r.Descr), Submit: r.SubmitTime.Unix(), Status: -1}
+	o := resultObs{ID: a.id(r.ID), Group: a.id(r.GroupID), Name: nameIx(r.Name), Descr: nameIx(r.Descr), Submit: r.SubmitTime.Unix(), Status: -1,
+		Start: "7", End: "7"} // 7 ns: no generated time (a nil State)
 	if r.State != nil {
 		o.Status = int64(r.State.Status)
+		o.Start, o.End = nanosOf(r.State.Start), nanosOf(r.State.End)
 	}
 	return o
 }
@@ -381,6 +412,8 @@ func searchItem(a *abs, vt *vaultUnderTest, u uuid.UUID) (present bool, row rowO
 		GroupID     uuid.UUID `json:"groupID"`
 		SubmitTime  time.Time `json:"submitTime"`
 		StateStatus int64     `json:"stateStatus"`
+		StateStart  time.Time `json:"stateStart"`
+		StateEnd    time.Time `json:"stateEnd"`
 	}
 	if err := json.Unmarshal(b, &it); err != nil {
 		return true, rowObs{resultObs: resultObs{ID: 999}}, "search item does not parse: " + err.Error()
@@ -392,7 +425,8 @@ func searchItem(a *abs, vt *vaultUnderTest, u uuid.UUID) (present bool, row rowO
 	case swarmName:
 		sw = swarmIx
 	}
-	return true, rowObs{resultObs{a.id(it.ID), a.id(it.GroupID), nameIx(it.Name), nameIx(it.Descr), it.SubmitTime.Unix(), it.StateStatus}, sw}, ""
+	return true, rowObs{resultObs{a.id(it.ID), a.id(it.GroupID), nameIx(it.Name), nameIx(it.Descr), it.SubmitTime.Unix(), it.StateStatus,
+		nanosOf(it.StateStart), nanosOf(it.StateEnd)}, sw}, ""
 }
 
 // ---------------------------------------------------------------------------------- a history
@@ -451,21 +485,21 @@ func (s *scenario) create(ps planSpec) {
 	}
 }
 
-func (s *scenario) update(ix int, status, submit int64) {
+func (s *scenario) update(ix int, status, submit, start, end int64) {
 	ps, ok := s.live[ix]
 	if !ok {
-		ps = planSpec{Ix: ix}
+		ps = planSpec{Ix: ix, Start: zeroSubmit, End: zeroSubmit}
 	}
 	up := ps
-	up.Status, up.Submit = status, submit
+	up.Status, up.Submit, up.Start, up.End = status, submit, start, end
 	p := build(s.r, s.uu, up, false)
 	class, note := guarded(func(ctx context.Context) error { return s.vt.v.UpdatePlan(ctx, p) })
 	it, itObs, n2 := s.itemTerm(ix)
-	s.add(stepRec{Kind: "update", Input: map[string]any{"ix": ix, "status": status, "submit": submit},
+	s.add(stepRec{Kind: "update", Input: map[string]any{"ix": ix, "status": status, "submit": submit, "start": start, "end": end},
 		Obs: map[string]any{"class": class, "search_item": itObs}, Note: strings.TrimSpace(note + " " + n2),
-		term: core.App("TOp", core.App("OUpdate", core.N(uint64(ix)), core.N(statusN(status)), core.Z(submit)), core.B(class == 0), it)})
+		term: core.App("TOp", core.App("OUpdate", core.N(uint64(ix)), core.N(statusN(status)), core.Z(submit), bigZ(nanosOf(stateTime(start))), bigZ(nanosOf(stateTime(end)))), core.B(class == 0), it)})
 	if ok && class == 0 {
-		ps.Status = status
+		ps.Status, ps.Start, ps.End = status, start, end
 		if s.vt.cosmos {
 			ps.Submit = submit
 		}
@@ -768,8 +802,13 @@ func runScenario(seed uint64, index int, tier string, scratch string) core.Case 
 		if !r.Chance(0.25) {
 			g = s.groups[r.Intn(len(s.groups))]
 		}
-		return planSpec{Ix: ix, Group: g, Name: r.Intn(len(names)), Descr: r.Intn(len(names)), Submit: submit(),
-			Status: statusPool[r.Weighted([]int{3, 3, 2, 2, 1})]}
+		ps := planSpec{Ix: ix, Group: g, Name: r.Intn(len(names)), Descr: r.Intn(len(names)), Submit: submit(),
+			Status: statusPool[r.Weighted([]int{3, 3, 2, 2, 1})], Start: zeroSubmit, End: zeroSubmit}
+		// a created plan is usually unstarted (zero Start / End); sometimes it carries times already
+		if ps.Status != 0 || r.Chance(0.2) {
+			ps.Start, ps.End = stateTimes(r, base, ps.Status)
+		}
+		return ps
 	}
 	anyStatus := func() int64 {
 		if r.Chance(0.05) {
@@ -799,7 +838,9 @@ func runScenario(seed uint64, index int, tier string, scratch string) core.Case 
 			if ps, ok := s.live[t]; ok && r.Chance(0.7) {
 				sub = ps.Submit // the engine passes the stored submit time back
 			}
-			s.update(t, anyStatus(), sub)
+			st := anyStatus()
+			a, b := stateTimes(r, base, st)
+			s.update(t, st, sub, a, b)
 		}
 		if r.Chance(0.12) {
 			t := 1 + r.Intn(ix)
@@ -814,14 +855,14 @@ func runScenario(seed uint64, index int, tier string, scratch string) core.Case 
 		}
 		if r.Chance(0.05) && !vt.cosmos {
 			// cosmosdb retries a patch of an unknown item with back-off; sqlite updates zero rows
-			s.update(s.unknown[r.Intn(2)], anyStatus(), submit())
+			s.update(s.unknown[r.Intn(2)], anyStatus(), submit(), base+5, base+9)
 		}
 		if ix == mid && nPlans >= 4 {
 			s.battery(false)
 		}
 	}
 	if nPlans == 0 {
-		s.create(planSpec{Ix: 0, Status: 100, Submit: base}) // uuid.Nil is rejected
+		s.create(planSpec{Ix: 0, Status: 100, Submit: base, Start: base + 2, End: zeroSubmit}) // uuid.Nil is rejected
 	}
 	s.battery(true)
 
@@ -861,6 +902,28 @@ func runScenario(seed uint64, index int, tier string, scratch string) core.Case 
 		Input:      map[string]any{"seed": seed, "index": index, "backend": backend, "plans": nPlans, "uuids": uuidStrings(s.uu)},
 		Observed:   s.steps,
 	}
+}
+
+// stateTimes draws State.Start / State.End: distinct, non-zero, Start before End for finished statuses; a
+// Running plan has no End; rarely an instant before the epoch or the epoch itself (sqlite: the zero time).
+func stateTimes(r *core.Rand, base int64, status int64) (int64, int64) {
+	start := base + 100 + int64(r.Intn(400))
+	end := start + 1 + int64(r.Intn(300))
+	switch x := r.Intn(25); {
+	case x == 0:
+		start = -7
+	case x == 1:
+		start = 0
+	case x == 2:
+		end = zeroSubmit
+	}
+	if status == 100 && r.Chance(0.8) {
+		end = zeroSubmit
+	}
+	if status == 0 && r.Chance(0.5) {
+		start, end = zeroSubmit, zeroSubmit
+	}
+	return start, end
 }
 
 func uuidStrings(uu []uuid.UUID) []string {
